@@ -2,7 +2,7 @@ NOTES = "See DESIGN.md. Every check: regenerate data from /repo, lake build of t
 NOT_APPLICABLE = {}
 CHECKS = {
     "C01": {
-        "text": "Kernel-checked theorem: whenever the model of EWD returns, its verdict is exact (q-reduced form + Dhar's burn + uniqueness argument); the model is tied to the code by running both on generated multigraphs/divisors in both modes and diffing verdicts.",
+        "text": "Kernel-checked theorems: whenever the model of EWD returns, its verdict is exact in plain mode (q-reduced form + Dhar burn completeness + maximum-principle argument) and in optimized mode (negative degree unwinnable; degree >= genus winnable via the acyclic burning orientation of degree g-1), both modes agree, is_winnable is exact. Tie: both modes, recording on/off, generated multigraphs x divisors incl. a stratum (chain multigraphs, low degree, heavy adjacent debt) where incomplete debt concentration flips the verdict.",
         "note": "Trusted: Lean kernel, axioms propext/Classical.choice/Quot.sound, fidelity of the hand-written model (checked differentially on this run's inputs only), harness canonicalisation.",
     },
     "C05": {
@@ -20,5 +20,17 @@ CHECKS = {
     "C13": {
         "text": "Kernel-checked invariant by induction over arbitrary operation histories: adjacency symmetric and loopless, cached valence = row sum, 2*edge total = sum of valences, genus formula, refusals (loop, non-positive, unknown) leave the graph unchanged, add_edges = its accepted prefix, remove_vertex well-formed and pure; tie: generated valid/invalid histories with full cache digests after every step.",
         "note": "Equality 'remove_vertex = induced multigraph' is tied by correspondence (renumbered digest compared); the theorem proves well-formedness of the rebuilt graph and purity.",
+    },
+    "C02": {
+        "text": "Kernel-checked theorems on the EWD model: the returned divisor is linearly equivalent to the input with the same degree, its sink has minimum degree, it is q-reduced (no debt off q, no legal set: Dhar burn completeness), q-reduced representatives are unique (so equivalent inputs with the same sink give identical outputs whatever orders the runs used), verdict = no debt at q. is_q_reduced: theorem that the API is constantly True + kernel-checked refutation witness (known finding K1) + the provable half. Tie: EWD / q_reduction / is_q_reduced / is_winnable on generated inputs; oracle: verified reduction w.r.t. every minimum-degree sink.",
+        "note": "hcover (BFS reaches all vertices) and 'the run returns' are hypotheses of the theorems; the model's fidelity is checked differentially on this run's inputs. The 'exactly when' clause for is_q_reduced is refuted, not proved (K1).",
+    },
+    "C08": {
+        "text": "Kernel-checked theorems: debt concentration stays in the class, keeps the degree and clears V-q whenever it returns; the burn as coded (index-order passes with in-pass updates) returns exactly the union of all legal sets, itself legal; firing it leaves members debt-free; empty iff superstable. Tie: DharAlgorithm.send_debt_to_q / run / get_maximal_legal_firing_set / legal_set_fire / is_superstable for every sink on generated inputs.",
+        "note": "Termination of the borrowing loop is not yet a theorem (fuel-bounded model); non-termination of the code would show as TIMEOUT in the correspondence.",
+    },
+    "C09": {
+        "text": "Kernel-checked theorem from the time-stamped burn invariant: the returned orientation is full, acyclic (burn time is a topological order), q is the only source, every other vertex holds fewer chips than its in-degree, in-degrees sum to |E|; unwinnable verdict implies vertex-wise domination by in-degree minus one. Tie: orientation, in/out counters and fullness of every EWD result compared edge by edge, and the certificate re-checked directly on the implementation's output.",
+        "note": "Same hypotheses as C01 (well-formed graph, BFS cover, run returns).",
     },
 }
